@@ -49,7 +49,11 @@ Lemma Forall2_len {A B} (R : A -> B -> Prop) l m : Forall2 R l m -> length l = l
 Proof. induction 1; cbn; congruence. Qed.
 
 Lemma kind_eqb_eq a b : kind_eqb a b = true -> a = b.
-Proof. destruct a, b; cbn; intros H; try discriminate; try reflexivity; apply Nat.eqb_eq in H; subst; reflexivity. Qed.
+Proof.
+destruct a, b; cbn; intros H; try discriminate; try reflexivity.
+- apply Nat.eqb_eq in H; subst; reflexivity.
+- apply andb_prop in H as [H1 H2]; apply Nat.eqb_eq in H1; apply Nat.eqb_eq in H2; subst; reflexivity.
+Qed.
 
 Theorem check_fun_sound pargs pret cret cargs : check_fun pargs pret cret cargs = true ->
   (match pargs with
